@@ -213,6 +213,25 @@ func wrappers(c *explore.Chooser) *explore.Case {
 		shiftL++
 		applied = append(applied, "doc-marker")
 	}
+	// a second, different rule list elsewhere in the file: under a sibling key after the wrapped one, or in a
+	// document of its own. Both lists must be found, each where it is.
+	const extraList = "- record: extra:rule\n  expr: vector(1)\n- alert: ExtraAlert\n  expr: up == 2\n"
+	extraAt := -1
+	switch c.Free(3, "second-rule-list") {
+	case 1:
+		if !isMap || docs == 2 {
+			return &explore.Case{Skip: true}
+		}
+		lines = append(lines, "morerules:")
+		extraAt = len(lines)
+		lines = append(lines, strings.Split(strings.TrimSuffix(extraList, "\n"), "\n")...)
+		applied = append(applied, "second-list-under-sibling-key")
+	case 2:
+		lines = append(lines, "---")
+		extraAt = len(lines)
+		lines = append(lines, strings.Split(strings.TrimSuffix(extraList, "\n"), "\n")...)
+		applied = append(applied, "second-list-in-own-document")
+	}
 	text := strings.Join(lines, "\n") + "\n"
 	be, ok := parse(bases[bi], false)
 	if !ok {
@@ -221,6 +240,14 @@ func wrappers(c *explore.Chooser) *explore.Case {
 	want, wok := sigs(be, shiftL, shiftC)
 	if !wok || len(want) == 0 {
 		panic("base has errors")
+	}
+	if extraAt >= 0 {
+		ee, ok := parse(extraList, false)
+		if !ok {
+			panic("extra list does not parse")
+		}
+		ew, _ := sigs(ee, extraAt, 0)
+		want = append(want, ew...)
 	}
 	input := map[string]any{"base": bi, "wrappers": applied, "file": text, "line_shift": shiftL, "column_shift": shiftC}
 	cs := &explore.Case{Input: input, Key: text, Trivial: len(applied) == 0, Outcome: fmt.Sprintf("depth=%d", len(applied))}
@@ -252,7 +279,7 @@ func main() {
 	}
 	explore.Main(&explore.Config{
 		Property: "C19", Level: "exploration",
-		Rule: "(i) every strict-valid document among the styled (17 scalar styles x layouts) and semantic (all field deviations) generators with <=k deviations (k=2 quick, 3 thorough): strict parse vs relaxed parse, compared on kind, name, expr, line range and every position range of every field; (ii) 7 rule lists (3 with a physical line of 4090-4095 bytes, just under a 4 KiB buffer) x every wrapper sequence of depth<=4 over {mapping key (indent 0/2/4, incl. a key named rules), sequence item, sibling keys before/after (scalar, block text, flow seq), groups wrapper} x {extra document before/after, leading ---}: relaxed parse of the wrapped file vs relaxed parse of the bare list displaced by the wrapper's line and column shift. distinct = distinct file bytes",
+		Rule:        "(i) every strict-valid document among the styled (17 scalar styles x layouts) and semantic (all field deviations) generators with <=k deviations (k=2 quick, 3 thorough): strict parse vs relaxed parse, compared on kind, name, expr, line range and every position range of every field; (ii) 7 rule lists (3 with a physical line of 4090-4095 bytes, just under a 4 KiB buffer) x every wrapper sequence of depth<=4 over {mapping key (indent 0/2/4, incl. a key named rules), sequence item, sibling keys before/after (scalar, block text, flow seq), groups wrapper} x {extra document before/after, leading ---} x {no second rule list, one under a sibling key, one in a document of its own}: relaxed parse of the wrapped file vs relaxed parse of the bare list displaced by the wrapper's line and column shift. distinct = distinct file bytes",
 		Assumptions: []string{"documents that are not strict-valid are outside clause (i) and counted as trivial"},
 		Spaces: []*explore.Space{
 			{Name: "modes-styled", Bound: k, Body: modes(func(c *explore.Chooser) (string, []string, bool) {
